@@ -73,6 +73,23 @@ def check(kind, case, rec):
         pts = pts + rng.uniform(-amp, amp, pts.shape)
         mesh = mesh.copy()
         mesh.update(points=pts)
+    # metamorphic inputs: the same body in another length unit (all oracles below are relative) and with renumbered points
+    # (e.g. after merge_duplicate_points / an import): neither changes any of the relations
+    pick = (case["sseed"] + sum(spec["n"])) % 4
+    if pick in (1, 3):
+        unit = (1e-4, 1e3)[pick // 2]
+        pts = pts * unit
+        mesh = mesh.copy()
+        mesh.update(points=pts)
+        info = dict(info, h=info["h"] * unit)
+        rec.label(f"length-unit={unit:g}")
+    if (case["sseed"] // 4 + spec["n"][0]) % 3 == 0:
+        perm = np.random.default_rng(case["sseed"] + 11).permutation(len(pts))  # old id -> new id
+        newpts = np.empty_like(pts)
+        newpts[perm] = pts
+        mesh = fem.Mesh(newpts, perm[np.asarray(mesh.cells)], mesh.cell_type)
+        pts = newpts
+        rec.label("points-renumbered")
     ncell = mesh.ncells
     rec.nontrivial = max(spec["n"]) >= 3 and (case["surf"] > 0 or spec["curve"] > 0 or spec["jitter"] > 0)
     rv = gm.region(mesh, info)
